@@ -282,8 +282,9 @@ func buildRestApiWithParameters(ctx *parser.MethodDeclarationContext) {
 		for _, modifier := range modifiers {
 			childType := reflect.TypeOf(modifier.GetChild(0))
 			if childType.String() == "*parser.AnnotationContext" {
-				qualifiedName := modifier.GetChild(0).(*parser.AnnotationContext).QualifiedName().GetText()
-				if qualifiedName == "RequestBody" {
+				// java.lang.@Nullable String p: an annotation inside a qualified type name has no qualifiedName child
+				qualifiedName := modifier.GetChild(0).(*parser.AnnotationContext).QualifiedName()
+				if qualifiedName != nil && qualifiedName.GetText() == "RequestBody" {
 					hasRequestBody = true
 				}
 			}
